@@ -4,9 +4,20 @@ package main
 // fragment of `Mpc.Mpcl.Ssa.lower` (lean/MpcVerif/Model/MpclLower.lean) from
 // the AST types of ast.go, so Src() / Sx() are those of the general generator.
 //
-//   - one function, 1-3 scalar parameters (bool / intN / uintN; 65% of the
-//     programs have <= 12 input bits and are evaluated exhaustively; otherwise
-//     widths 1..8, 16, 31, 32, 33, 40, 64), 1-2 scalar results;
+//   - main with 1-3 parameters (bool / intN / uintN, in 45% of the programs also
+//     an array or a struct; 65% of the programs have <= 12 input bits and are
+//     evaluated exhaustively; otherwise widths 1..8, 16, 31, 32, 33, 40, 64), 1-2
+//     results (scalars; arrays / structs in the aggregate class);
+//   - 55% of the programs have 1-2 helper functions (scalar / array / struct
+//     parameters, 1-3 results, named results, early returns) that main (and the
+//     second helper) calls: in expressions, `var x T = f(..)`, `x := f(..)`,
+//     `x, y := f(..)`, `a, b = f(..)`, parameter names reused;
+//   - aggregate class (45%): `[n]T`, `[2][m]T`, struct types (scalar fields, an
+//     array field), `var v A`, `var v A = w`, `v = w`, element / field reads with
+//     literal, loop-variable and computed (uintK, 2^K <= n) indices, element /
+//     field writes `v[k] = e`, `v[i][j] = e`, `s.f = e`, `s.f[k] = e`, `v[k] op= e`,
+//     aggregates assigned in if / else (phi on the flattened value), `for` over
+//     an array;
 //   - `var x T = e`, `var x T`, `x := e` (outside loops), `x = e`, `x op= e`,
 //     `x <<= k`, `x++`, if / else / else-if incl. nested, early `return` (both
 //     branches, one branch, else-less, nested partial, inside a loop body),
@@ -46,6 +57,12 @@ type fgen struct {
 	small   bool
 	palette []*Ty
 	results []*Ty
+	// calls and aggregates
+	prog    *Program
+	funcs   []*Func // helpers this function may call
+	aggs    []*Ty   // aggregate types of this program (empty: scalar class)
+	calls   int
+	named   []string
 }
 
 const fragBudget = 30000
@@ -230,6 +247,9 @@ func (g *fgen) castTo(t *Ty, e *Expr) *Expr {
 }
 
 func (g *fgen) numLeaf(t *Ty) *Expr {
+	if e := g.extraLeaf(t); e != nil {
+		return e
+	}
 	var same []fvar
 	for _, v := range g.vars {
 		if !v.loop && v.t.Eq(t) {
@@ -333,6 +353,9 @@ func (g *fgen) boolLeaf() *Expr {
 }
 
 func (g *fgen) boolean(d int) *Expr {
+	if e := g.extraLeaf(tyBool); e != nil && g.pct(50) {
+		return e
+	}
 	if d <= 0 {
 		if e := g.boolLeaf(); e != nil && g.pct(50) {
 			return e
@@ -417,7 +440,7 @@ func (g *fgen) stmtDecl(t *Ty) *Stmt {
 func (g *fgen) stmtAssign() *Stmt {
 	var c []fvar
 	for _, v := range g.vars {
-		if !v.loop {
+		if !v.loop && v.t.IsScalar() {
 			c = append(c, v)
 		}
 	}
@@ -565,6 +588,10 @@ func (g *fgen) simple(n int, depth int) []*Stmt {
 		if k == 3 && (g.loops >= 2 || g.iters > 4) {
 			k = 1
 		}
+		if x := g.extraStmt(); x != nil {
+			out = append(out, x...)
+			continue
+		}
 		switch k {
 		case 0:
 			out = append(out, g.stmtDecl(g.scalarTy()))
@@ -585,7 +612,7 @@ func (g *fgen) simple(n int, depth int) []*Stmt {
 func (g *fgen) mixLive(t *Ty, e *Expr) *Expr {
 	var cand []fvar
 	for i := len(g.vars) - 1; i >= 0; i-- {
-		if !g.vars[i].loop {
+		if !g.vars[i].loop && g.vars[i].t.IsScalar() {
 			cand = append(cand, g.vars[i])
 		}
 	}
@@ -613,8 +640,15 @@ func (g *fgen) mixLive(t *Ty, e *Expr) *Expr {
 }
 
 func (g *fgen) retStmt() *Stmt {
+	if g.named != nil {
+		return &Stmt{K: "retnamed", Xs: g.named}
+	}
 	s := &Stmt{K: "ret"}
 	for _, rt := range g.results {
+		if !rt.IsScalar() {
+			s.Es = append(s.Es, g.aggValue(rt))
+			continue
+		}
 		s.Es = append(s.Es, g.mixLive(rt, g.expr(rt, 2)))
 	}
 	return s
@@ -681,7 +715,430 @@ func (g *fgen) tail(depth int) []*Stmt {
 	return append(out, g.tail(depth-1)...)
 }
 
+// ---------------------------------------------------------------- aggregates and calls
+
+// aggVars: visible variables of exactly type t.
+func (g *fgen) aggVars(t *Ty) []fvar {
+	var c []fvar
+	for _, v := range g.vars {
+		if !v.loop && tyEqGo(v.t, t) {
+			c = append(c, v)
+		}
+	}
+	return c
+}
+
+// aggValue: an expression of the aggregate type t (a variable; every aggregate
+// type in use has one: the generator declares `var z T` up front).
+func (g *fgen) aggValue(t *Ty) *Expr {
+	c := g.aggVars(t)
+	if len(c) == 0 {
+		panic("lowergen: no variable of type " + t.Src())
+	}
+	v := c[g.r.Intn(len(c))]
+	return &Expr{K: "var", X: v.name, T: v.t}
+}
+
+// index: an index expression for an array of n elements: literal, loop variable
+// in range, or computed of type uintK with 2^K <= n.
+func (g *fgen) index(n int, allowVar bool) *Expr {
+	var loops []fvar
+	for _, v := range g.vars {
+		if v.loop && v.lmax < n {
+			loops = append(loops, v)
+		}
+	}
+	if len(loops) > 0 && g.pct(55) {
+		return &Expr{K: "ivar", X: loops[g.r.Intn(len(loops))].name, T: tInt(32)}
+	}
+	if allowVar && n >= 2 && g.pct(35) {
+		k := log2floor(n)
+		if k > 2 {
+			k = 2
+		}
+		return g.num(tUint(k), 1)
+	}
+	return lit32(g.r.Intn(n))
+}
+
+// components: readable places of scalar type t inside aggregate variables.
+func (g *fgen) components(t *Ty) []*Expr {
+	var out []*Expr
+	for _, v := range g.vars {
+		if v.loop || v.t.IsScalar() {
+			continue
+		}
+		ve := &Expr{K: "var", X: v.name, T: v.t}
+		switch v.t.K {
+		case KArr:
+			if tyEqGo(v.t.Elem, t) {
+				out = append(out, &Expr{K: "idx", A: ve, B: g.index(v.t.N, true), T: t})
+			} else if v.t.Elem.K == KArr && tyEqGo(v.t.Elem.Elem, t) {
+				in := &Expr{K: "idx", A: ve, B: g.index(v.t.N, false), T: v.t.Elem}
+				out = append(out, &Expr{K: "idx", A: in, B: g.index(v.t.Elem.N, true), T: t})
+			}
+		case KStruct:
+			for i, f := range v.t.Fields {
+				fe := &Expr{K: "fld", A: ve, Fi: i, T: f}
+				if tyEqGo(f, t) {
+					out = append(out, fe)
+				} else if f.K == KArr && tyEqGo(f.Elem, t) {
+					out = append(out, &Expr{K: "idx", A: fe, B: g.index(f.N, true), T: t})
+				}
+			}
+		}
+	}
+	return out
+}
+
+// callOf: a call of helper f with fresh argument expressions (never constants,
+// exact parameter types), nil when an aggregate argument has no source.
+func (g *fgen) callOf(f *Func, d int) *Expr {
+	if g.calls >= 3 || g.iters > 2 {
+		return nil
+	}
+	var args []*Expr
+	for _, p := range f.Params {
+		if p.T.IsScalar() {
+			args = append(args, g.expr(p.T, d))
+		} else {
+			if len(g.aggVars(p.T)) == 0 {
+				return nil
+			}
+			args = append(args, g.aggValue(p.T))
+		}
+	}
+	g.calls++
+	g.cost += 1500 * g.iters
+	return &Expr{K: "call", Fn: f, Args: args}
+}
+
+// extraLeaf: a component read or a call of type t (nil: use the ordinary leaves).
+func (g *fgen) extraLeaf(t *Ty) *Expr {
+	if len(g.aggs) > 0 && g.pct(30) {
+		if cs := g.components(t); len(cs) > 0 {
+			return cs[g.r.Intn(len(cs))]
+		}
+	}
+	if len(g.funcs) > 0 && g.pct(12) {
+		var c []*Func
+		for _, f := range g.funcs {
+			if len(f.Results) == 1 && tyEqGo(f.Results[0], t) {
+				c = append(c, f)
+			}
+		}
+		if len(c) > 0 {
+			if e := g.callOf(c[g.r.Intn(len(c))], 1); e != nil {
+				e.T = t
+				return e
+			}
+		}
+	}
+	return nil
+}
+
+// lvals: component l-values (literal / loop-variable indices only).
+func (g *fgen) lvals() []*LVal {
+	var out []*LVal
+	ci := func(n int) *Expr { return g.index(n, false) }
+	for _, v := range g.vars {
+		if v.loop || v.t.IsScalar() {
+			continue
+		}
+		switch v.t.K {
+		case KArr:
+			if v.t.Elem.IsScalar() {
+				out = append(out, &LVal{X: v.name, Path: []Acc{{Idx: ci(v.t.N)}}, T: v.t.Elem})
+			} else if v.t.Elem.K == KArr {
+				out = append(out, &LVal{X: v.name, Path: []Acc{{Idx: ci(v.t.N)}, {Idx: ci(v.t.Elem.N)}}, T: v.t.Elem.Elem})
+				out = append(out, &LVal{X: v.name, Path: []Acc{{Idx: ci(v.t.N)}}, T: v.t.Elem})
+			}
+		case KStruct:
+			for i, f := range v.t.Fields {
+				if f.K == KArr {
+					out = append(out, &LVal{X: v.name, Path: []Acc{{Fi: i}, {Idx: ci(f.N)}}, T: f.Elem})
+				} else {
+					out = append(out, &LVal{X: v.name, Path: []Acc{{Fi: i}}, T: f})
+				}
+			}
+		}
+	}
+	return out
+}
+
+func (g *fgen) rootT(name string) *Ty {
+	for i := len(g.vars) - 1; i >= 0; i-- {
+		if g.vars[i].name == name {
+			return g.vars[i].t
+		}
+	}
+	return nil
+}
+
+// extraStmt: a statement over aggregates or a call statement (nil: an ordinary one).
+func (g *fgen) extraStmt() []*Stmt {
+	if len(g.aggs) > 0 && g.pct(38) {
+		switch g.pick(22, 48, 12, 18) {
+		case 0: // var v A / var v A = w
+			t := g.aggs[g.r.Intn(len(g.aggs))]
+			name := g.fresh("v")
+			st := &Stmt{K: "decl", X: name, T: t}
+			if g.pct(50) {
+				st.E = g.aggValue(t)
+			}
+			g.declare(name, t)
+			return []*Stmt{st}
+		case 1: // component store
+			lvs := g.lvals()
+			if len(lvs) == 0 {
+				return nil
+			}
+			lv := lvs[g.r.Intn(len(lvs))]
+			if !lv.T.IsScalar() {
+				// a whole row of a 2-D array
+				if len(g.aggVars(lv.T)) == 0 {
+					return nil
+				}
+				return []*Stmt{{K: "assign", LVs: []*LVal{lv}, E: g.aggValue(lv.T)}}
+			}
+			if lv.T.IsNum() && g.pct(25) && !(lv.T.Signed() && lv.T.W == 1) {
+				root := g.rootT(lv.X)
+				if g.pct(30) {
+					return []*Stmt{{K: "incdec", LVs: []*LVal{lv}, Op: []string{"add", "sub"}[g.r.Intn(2)], RootT: root}}
+				}
+				op := []string{"add", "sub", "or", "xor", "and", "shl", "shr"}[g.r.Intn(7)]
+				if op == "shl" || op == "shr" {
+					return []*Stmt{{K: "opassign", LVs: []*LVal{lv}, Op: op, Lo: g.r.Intn(lv.T.W + 2), RootT: root}}
+				}
+				return []*Stmt{{K: "opassign", LVs: []*LVal{lv}, Op: op, E: g.num(lv.T, 2), RootT: root}}
+			}
+			var e *Expr
+			if lv.T.IsNum() && g.pct(20) {
+				e = g.lit(lv.T, false) // a constant into a component
+			}
+			if e == nil {
+				e = g.expr(lv.T, 2)
+			}
+			return []*Stmt{{K: "assign", LVs: []*LVal{lv}, E: e}}
+		case 2: // v = w
+			t := g.aggs[g.r.Intn(len(g.aggs))]
+			c := g.aggVars(t)
+			if len(c) < 2 {
+				return nil
+			}
+			dst := c[g.r.Intn(len(c))]
+			return []*Stmt{{K: "assign", LVs: []*LVal{{X: dst.name, T: t}}, E: g.aggValue(t)}}
+		default: // for over an array
+			if g.loops > 0 || g.iters > 1 {
+				return nil
+			}
+			var arrs []fvar
+			for _, v := range g.vars {
+				if !v.loop && v.t.K == KArr && v.t.Elem.IsNum() {
+					arrs = append(arrs, v)
+				}
+			}
+			nv := g.numVars()
+			if len(arrs) == 0 || len(nv) == 0 {
+				return nil
+			}
+			a := arrs[g.r.Intn(len(arrs))]
+			acc := nv[g.r.Intn(len(nv))]
+			i := g.fresh("i")
+			el := &Expr{K: "idx", A: &Expr{K: "var", X: a.name, T: a.t}, B: &Expr{K: "ivar", X: i, T: tInt(32)}, T: a.t.Elem}
+			op := []string{"add", "xor", "sub"}[g.r.Intn(3)]
+			body := []*Stmt{{K: "assign", LVs: []*LVal{{X: acc.name, T: acc.t}},
+				E: &Expr{K: "bin", X: op, T: acc.t, A: &Expr{K: "var", X: acc.name, T: acc.t}, B: g.castTo(acc.t, el)}}}
+			if g.pct(40) {
+				body = append(body, &Stmt{K: "assign", LVs: []*LVal{{X: a.name, Path: []Acc{{Idx: &Expr{K: "ivar", X: i, T: tInt(32)}}}, T: a.t.Elem}},
+					E: g.castTo(a.t.Elem, &Expr{K: "var", X: acc.name, T: acc.t})})
+			}
+			return []*Stmt{{K: "for", X: i, Lo: 0, Cmp: "lt", Hi: a.t.N, Step: 1, IncForm: g.r.Intn(3), Then: body}}
+		}
+	}
+	if len(g.funcs) > 0 && g.pct(22) {
+		f := g.funcs[g.r.Intn(len(g.funcs))]
+		call := g.callOf(f, 2)
+		if call == nil {
+			return nil
+		}
+		if len(f.Results) == 1 {
+			call.T = f.Results[0]
+			name := g.fresh("v")
+			g.declare(name, call.T)
+			if g.loops == 0 && g.pct(40) {
+				return []*Stmt{{K: "define", Xs: []string{name}, E: call}}
+			}
+			return []*Stmt{{K: "decl", X: name, T: call.T, E: call}}
+		}
+		if g.pct(45) {
+			// a, b = f(..) into existing variables of the result types
+			var lvs []*LVal
+			used := map[string]bool{}
+			ok := true
+			for _, rt := range f.Results {
+				var cand []fvar
+				for _, v := range g.vars {
+					if !v.loop && tyEqGo(v.t, rt) && !used[v.name] {
+						cand = append(cand, v)
+					}
+				}
+				if len(cand) == 0 {
+					ok = false
+					break
+				}
+				v := cand[g.r.Intn(len(cand))]
+				used[v.name] = true
+				lvs = append(lvs, &LVal{X: v.name, T: v.t})
+			}
+			if ok {
+				return []*Stmt{{K: "assign", LVs: lvs, E: call}}
+			}
+		}
+		if g.loops > 0 {
+			g.calls--
+			return nil
+		}
+		var xs []string
+		for _, rt := range f.Results {
+			n := g.fresh("v")
+			xs = append(xs, n)
+			g.declare(n, rt)
+		}
+		return []*Stmt{{K: "define", Xs: xs, E: call}}
+	}
+	return nil
+}
+
+// aggPalette: the aggregate types of an aggregate-class program.
+func (g *fgen) aggPalette(p *Program) {
+	elem := func() *Ty {
+		if g.small {
+			w := 1 + g.r.Intn(3)
+			if g.r.Bool() {
+				return tUint(w)
+			}
+			return tInt(w + 1)
+		}
+		if g.pct(10) {
+			return tyBool
+		}
+		return g.paletteTy()
+	}
+	n := 1 + g.r.Intn(3)
+	for i := 0; i < n; i++ {
+		switch g.pick(50, 30, 20) {
+		case 0:
+			g.aggs = append(g.aggs, tArr(2+g.r.Intn(3), elem()))
+		case 1:
+			st := &Ty{K: KStruct, Name: fmt.Sprintf("S%d", len(p.Structs))}
+			nf := 2 + g.r.Intn(2)
+			for k := 0; k < nf; k++ {
+				if k > 0 && g.pct(25) {
+					st.Fields = append(st.Fields, tArr(2, elem()))
+				} else if g.pct(15) {
+					st.Fields = append(st.Fields, tyBool)
+				} else {
+					st.Fields = append(st.Fields, elem())
+				}
+			}
+			p.Structs = append(p.Structs, st)
+			g.aggs = append(g.aggs, st)
+		default:
+			e := elem()
+			if e.Bits() > 8 {
+				e = tUint(3)
+			}
+			g.aggs = append(g.aggs, tArr(2, tArr(2, e)))
+		}
+	}
+}
+
+// function generates one function with the given signature; helpers: callable functions.
+func genFragFunc(r *hxlib.Rng, p *Program, small bool, palette []*Ty, aggs []*Ty, helpers []*Func, force []*Func,
+	name string, index int, params []Param, results []*Ty, named bool) *Func {
+	g := &fgen{r: r, iters: 1, small: small, palette: palette, aggs: aggs, funcs: helpers, prog: p, results: results}
+	for _, pr := range params {
+		g.declare(pr.Name, pr.T)
+	}
+	f := &Func{Name: name, Index: index, Params: params, Results: results}
+	var pre []*Stmt
+	if named {
+		for i := range results {
+			f.Named = append(f.Named, fmt.Sprintf("r%d", i))
+			g.declare(f.Named[i], results[i])
+		}
+		g.named = f.Named
+	}
+	// every aggregate type in use has a variable
+	need := append([]*Ty(nil), aggs...)
+	for _, rt := range results {
+		if !rt.IsScalar() {
+			need = append(need, rt)
+		}
+	}
+	for _, h := range helpers {
+		for _, pr := range h.Params {
+			if !pr.T.IsScalar() {
+				need = append(need, pr.T)
+			}
+		}
+	}
+	for _, t := range need {
+		if len(g.aggVars(t)) == 0 {
+			nm := g.fresh("z")
+			pre = append(pre, &Stmt{K: "decl", X: nm, T: t})
+			g.declare(nm, t)
+		}
+	}
+	if named {
+		// as in the shipped named_return*.mpcl programs most named results are assigned early
+		for i, rn := range f.Named {
+			if g.pct(70) {
+				var e *Expr
+				if results[i].IsScalar() {
+					e = g.expr(results[i], 2)
+				} else {
+					e = g.aggValue(results[i])
+					if e.X == rn {
+						continue
+					}
+				}
+				pre = append(pre, &Stmt{K: "assign", LVs: []*LVal{{X: rn, T: results[i]}}, E: e})
+			}
+		}
+	}
+	// helpers nobody calls yet (an uncalled function is not compiled)
+	for _, h := range force {
+		call := g.callOf(h, 2)
+		if call == nil {
+			continue
+		}
+		if len(h.Results) == 1 {
+			call.T = h.Results[0]
+			nm := g.fresh("v")
+			g.declare(nm, call.T)
+			pre = append(pre, &Stmt{K: "decl", X: nm, T: call.T, E: call})
+			continue
+		}
+		var xs []string
+		for _, rt := range h.Results {
+			nm := g.fresh("v")
+			xs = append(xs, nm)
+			g.declare(nm, rt)
+		}
+		pre = append(pre, &Stmt{K: "define", Xs: xs, E: call})
+	}
+	depth := 2
+	if len(helpers) > 0 || name != "main" {
+		depth = 1 + g.r.Intn(2)
+	}
+	f.Body = append(pre, append(g.simple(g.r.Intn(3), depth), g.tail(depth)...)...)
+	return f
+}
+
 func genFragProgram(r *hxlib.Rng) *Program {
+	p := &Program{Tags: map[string]bool{}}
 	g := &fgen{r: r, iters: 1}
 	g.small = g.pct(65)
 	names := []string{"a", "b", "c"}
@@ -696,6 +1153,8 @@ func genFragProgram(r *hxlib.Rng) *Program {
 			return tUint(w)
 		}
 	}
+	aggClass := g.pct(45)
+	withHelpers := g.pct(55)
 	n := 1 + r.Intn(3)
 	if g.small {
 		left := 12
@@ -730,17 +1189,118 @@ func genFragProgram(r *hxlib.Rng) *Program {
 	for k := r.Intn(3); k > 0; k-- {
 		g.palette = append(g.palette, g.numTy())
 	}
-	for _, pr := range params {
-		g.declare(pr.Name, pr.T)
+	if aggClass {
+		g.aggPalette(p)
+		// an aggregate parameter (small class: only if the input stays exhaustive)
+		t := g.aggs[g.r.Intn(len(g.aggs))]
+		bits := 0
+		for _, pr := range params {
+			bits += pr.T.Bits()
+		}
+		if g.pct(70) && (!g.small || bits+t.Bits() <= 12) && len(params) < 3 {
+			params = append(params, Param{Name: names[len(params)], T: t})
+		} else if g.pct(50) && (!g.small || bits-params[len(params)-1].T.Bits()+t.Bits() <= 12) && len(params) > 1 {
+			params[len(params)-1].T = t
+		}
+		still := false
+		for _, pr := range params {
+			if pr.T.IsNum() {
+				still = true
+			}
+		}
+		if !still {
+			params[0].T = g.palette[0]
+		}
+	}
+	anyTy := func(allowAgg bool) *Ty {
+		if allowAgg && len(g.aggs) > 0 && g.pct(30) {
+			return g.aggs[g.r.Intn(len(g.aggs))]
+		}
+		return g.scalarTy()
+	}
+	// helpers
+	var helpers []*Func
+	if withHelpers {
+		nh := 1 + g.pick(70, 30)
+		for i := 0; i < nh; i++ {
+			np := 1 + g.r.Intn(3)
+			var hp []Param
+			hnum := false
+			for k := 0; k < np; k++ {
+				t := anyTy(true)
+				if t.IsNum() {
+					hnum = true
+				}
+				nm := fmt.Sprintf("p%d", k)
+				if g.pct(40) {
+					nm = names[k] // helpers reuse the caller's names (call scoping)
+				}
+				hp = append(hp, Param{Name: nm, T: t})
+			}
+			if !hnum {
+				hp[0].T = g.paletteTy()
+			}
+			nr := 1 + g.pick(50, 35, 15)
+			var hr []*Ty
+			for k := 0; k < nr; k++ {
+				hr = append(hr, anyTy(k == 0 || g.pct(40)))
+			}
+			hpal := append([]*Ty(nil), g.palette...)
+			for _, pr := range hp {
+				if pr.T.IsNum() {
+					hpal = append(hpal, pr.T, pr.T)
+				}
+			}
+			h := genFragFunc(r, p, g.small, hpal, g.aggs, helpers, nil, fmt.Sprintf("f%d", i), i, hp, hr, g.pct(25))
+			helpers = append(helpers, h)
+			p.Funcs = append(p.Funcs, h)
+		}
 	}
 	nres := 1
 	if g.pct(35) {
 		nres = 2
 	}
+	var results []*Ty
 	for i := 0; i < nres; i++ {
-		g.results = append(g.results, g.scalarTy())
+		results = append(results, anyTy(true))
 	}
-	f := &Func{Name: "main", Index: 0, Params: params, Results: g.results}
-	f.Body = append(g.simple(g.r.Intn(3), 2), g.tail(2)...)
-	return &Program{Tags: map[string]bool{}, Funcs: []*Func{f}}
+	// helpers no other helper calls: main calls them first
+	called := map[*Func]bool{}
+	var walkE func(e *Expr)
+	walkE = func(e *Expr) {
+		if e == nil {
+			return
+		}
+		if e.K == "call" {
+			called[e.Fn] = true
+			for _, a := range e.Args {
+				walkE(a)
+			}
+		}
+		walkE(e.A)
+		walkE(e.B)
+	}
+	var walkB func(ss []*Stmt)
+	walkB = func(ss []*Stmt) {
+		for _, s := range ss {
+			walkE(s.E)
+			for _, e := range s.Es {
+				walkE(e)
+			}
+			walkB(s.Then)
+			walkB(s.Else)
+		}
+	}
+	for _, f := range helpers {
+		walkB(f.Body)
+	}
+	var force []*Func
+	for _, f := range helpers {
+		if !called[f] {
+			force = append(force, f)
+		}
+	}
+	main := genFragFunc(r, p, g.small, g.palette, g.aggs, helpers, force, "main", len(helpers), params, results, false)
+	p.Funcs = append(p.Funcs, main)
+	return p
 }
